@@ -74,6 +74,45 @@ def check_tree(data: dict, lab: Labels) -> None:
     with warnings.catch_warnings():
         warnings.simplefilter("ignore", DeprecationWarning)
         _check_tree(data, lab)
+        _check_orphan(data, lab)
+
+
+def _check_orphan(data: dict, lab: Labels) -> None:
+    """a subtree that outlives its root: once the last reference to the former root is gone the kept
+    node is an attached root (its parent id resolves to nothing) and everything said about attached
+    roots applies to it."""
+    import gc
+
+    from pyoak.legacy.match.xpath import ASTXpath
+
+    from pbt import legacy_engine as E
+
+    gc.collect()
+    b = L.LBuilt(data["tree"])
+    inner = [c for c, _, _ in E.kids(b.root)]
+    if not inner:
+        return
+    with_kids = [c for c in inner if E.kids(c)]
+    sub = (with_kids or inner)[data["start"] % len(with_kids or inner)]
+    del b, inner, with_kids
+    gc.collect()
+    if sub.parent is not None or not sub.is_attached_root:
+        lab.tag("orphan-not-a-root")  # (C18's subject, not asserted here)
+        return
+    lab.tag("orphaned-subtree-as-root")
+    require(sub.calculate_xpath() is True, "calculate_xpath-root", "a kept subtree whose former root is gone")
+
+    def walk(n: Any, prefix: str) -> None:
+        require(n.xpath == prefix, "calculate_xpath-path",
+                f"kept subtree whose former root is gone: {n.xpath!r} expected {prefix!r}")
+        for k, kfn, ki in E.kids(n):
+            walk(k, prefix + f"/@{kfn}[{0 if ki is None else ki}]{type(k).__name__}")
+
+    walk(sub, f"/@root[0]{type(sub).__name__}")
+    require(ASTXpath(f"/{type(sub).__name__}").match(sub) is True, "legacy-xpath-vs-documented-semantics",
+            "absolute one-step path on a kept subtree whose former root is gone")
+    got = list(sub.dfs())
+    require(bool(got) and got[0] is sub, "legacy-dfs-sequence", "kept subtree whose former root is gone: start node first")
 
 
 def _check_tree(data: dict, lab: Labels) -> None:
@@ -126,10 +165,15 @@ def _check_tree(data: dict, lab: Labels) -> None:
         flt_l = lambda nd: bool(fm >> live_sub[id(nd)] & 1)  # noqa: E731
         P_, F_ = (FalsyCallable(prune_l), FalsyCallable(flt_l)) if (pm + fm) % 3 == 0 else (prune_l, flt_l)
         for skip_self in (False, True):
+            # the documented parameter order is part of the interface: every other pair goes by position
+            positional = (pm ^ fm) % 2 == 1
             for name, mode, call in (
-                ("dfs", "pre", lambda: start.dfs(prune=P_, filter=F_, skip_self=skip_self)),
-                ("dfs-bottom-up", "post", lambda: start.dfs(prune=P_, filter=F_, bottom_up=True, skip_self=skip_self)),
-                ("bfs", "bfs", lambda: start.bfs(prune=P_, filter=F_, skip_self=skip_self)),
+                ("dfs", "pre", (lambda: start.dfs(P_, F_, False, skip_self)) if positional
+                 else (lambda: start.dfs(prune=P_, filter=F_, skip_self=skip_self))),
+                ("dfs-bottom-up", "post", (lambda: start.dfs(P_, F_, True, skip_self)) if positional
+                 else (lambda: start.dfs(prune=P_, filter=F_, bottom_up=True, skip_self=skip_self))),
+                ("bfs", "bfs", (lambda: start.bfs(P_, F_, skip_self)) if positional
+                 else (lambda: start.bfs(skip_self=skip_self, filter=F_, prune=P_))),
             ):
                 exp = ref_order(start_s, prune_e, flt_e, mode, skip_self)
                 got = list(call())
@@ -143,7 +187,7 @@ def _check_tree(data: dict, lab: Labels) -> None:
             nt = True
     # gather
     for cmask, exact, pm, fm, skip_self in data["gather"]:
-        names = [c for i, c in enumerate(CLASS_NAMES) if cmask >> i & 1] or ["AwareASTNode"]
+        names = [c for i, c in enumerate(CLASS_NAMES) if cmask >> i & 1]  # (none: an empty tuple selects nothing)
         clss = tuple(L.cls(c) for c in names)
         pm &= full
         fm &= full
@@ -361,7 +405,7 @@ def _derive(chain: list[tuple], bits: int, perturb: int) -> tuple[list[dict], bo
 
 def st_case(ctx: Ctx):
     masks = st.lists(st.tuples(st.integers(0, 2**40), st.integers(0, 2**40)).map(list), min_size=10, max_size=10)
-    gmask = st.lists(st.tuples(st.integers(1, 2 ** len(CLASS_NAMES) - 1), st.booleans(), st.integers(0, 2**40),
+    gmask = st.lists(st.tuples(st.integers(0, 2 ** len(CLASS_NAMES) - 1), st.booleans(), st.integers(0, 2**40),
                                st.integers(0, 2**40), st.booleans()).map(list), min_size=3, max_size=3)
     raw = st.tuples(st.just("raw"), X.st_steps(CLASS_NAMES, FIELD_NAMES), st.booleans(), st.integers(0, 2**12)).map(list)
     derived = st.tuples(st.just("derived"), st.integers(0, 60), st.integers(0, 2**30), st.integers(0, 500),
